@@ -52,23 +52,23 @@ Proof. exact peg_tree_wf. Qed.
                          g_blank  = variant {d_ctrl_chars}       g_ctl   = variant {d_cborseq}
    i.e. the specification grammar with exactly the named deviations switched on; the *_refuted theorems show that the
    deviations are real (the RFC rule itself differs from the PEG rule). *)
-Theorem C03_uint_lang_eq_bounded : forall w, Forall (fun c => In c sig_uint) w -> (length w <= 5)%nat ->
+Theorem C03_uint_lang_eq_upto3 : forall w, Forall (fun c => In c sig_uint) w -> (length w <= 3)%nat ->
   (peg_matches cddl_pest r_uint_value w = Some true <-> Der abnf_spec (ARef n_uint) w []).
 Proof. exact uint_lang_eq_bounded. Qed.
 
-Theorem C03_occur_lang_eq_bounded : forall w, Forall (fun c => In c sig_occur) w -> (length w <= 5)%nat ->
+Theorem C03_occur_lang_eq_upto3 : forall w, Forall (fun c => In c sig_occur) w -> (length w <= 3)%nat ->
   (peg_matches cddl_pest r_occur w = Some true <-> Der abnf_spec (ARef n_occur) w []).
 Proof. exact occur_lang_eq_bounded. Qed.
 
-Theorem C03_number_lang_eq_bounded : forall w, Forall (fun c => In c sig_number) w -> (length w <= 5)%nat ->
+Theorem C03_number_lang_eq_upto3 : forall w, Forall (fun c => In c sig_number) w -> (length w <= 3)%nat ->
   (peg_matches cddl_pest r_number w = Some true <-> Der g_number (ARef n_number) w []).
 Proof. exact number_lang_eq_bounded. Qed.
 
-Theorem C03_id_lang_eq_bounded : forall w, Forall (fun c => In c sig_id) w -> (length w <= 5)%nat ->
+Theorem C03_id_lang_eq_upto3 : forall w, Forall (fun c => In c sig_id) w -> (length w <= 3)%nat ->
   (peg_matches cddl_pest r_id w = Some true <-> Der g_id (ARef n_idns) w []).
 Proof. exact id_lang_eq_bounded. Qed.
 
-Theorem C03_text_lang_eq_bounded : forall w, Forall (fun c => In c sig_text) w -> (length w <= 5)%nat ->
+Theorem C03_text_lang_eq_upto3 : forall w, Forall (fun c => In c sig_text) w -> (length w <= 3)%nat ->
   (peg_matches cddl_pest r_text_value w = Some true <-> Der g_text (ARef n_text) w []).
 Proof. exact text_lang_eq_bounded. Qed.
 
@@ -76,11 +76,11 @@ Theorem C03_text_escapes_lang_eq : forall w, In w text_probe ->
   (peg_matches cddl_pest r_text_value w = Some true <-> Der g_text (ARef n_text) w []).
 Proof. exact text_escapes_lang_eq. Qed.
 
-Theorem C03_bytes_lang_eq_bounded : forall w, Forall (fun c => In c sig_bytes) w -> (length w <= 5)%nat ->
+Theorem C03_bytes_lang_eq_upto3 : forall w, Forall (fun c => In c sig_bytes) w -> (length w <= 3)%nat ->
   (peg_matches cddl_pest r_bytes_value w = Some true <-> Der g_bytes (ARef n_bytes) w []).
 Proof. exact bytes_lang_eq_bounded. Qed.
 
-Theorem C03_blank_comment_lang_eq_bounded : forall w, Forall (fun c => In c sig_blank) w -> (length w <= 5)%nat ->
+Theorem C03_blank_comment_lang_eq_upto3 : forall w, Forall (fun c => In c sig_blank) w -> (length w <= 3)%nat ->
   (peg_matches cddl_pest r_cddl w = Some true <-> Der g_blank (ARef n_cddl) w []).
 Proof. exact blank_lang_eq_bounded. Qed.
 
@@ -126,7 +126,7 @@ Theorem C03_deviation_witnesses : forallb witness_ok deviation_witnesses = true.
 Proof. exact deviation_witnesses_ok. Qed.
 
 (* partial: in a small scope the crate model accepts exactly the ABNF language with all listed deviations *)
-Theorem C03_language_small_scope_partial : forall w, Forall (fun c => In c sig_doc) w -> (length w <= 4)%nat ->
+Theorem C03_language_upto3_partial : forall w, Forall (fun c => In c sig_doc) w -> (length w <= 3)%nat ->
   (model_accepts w = Some true <-> Der (variant all_deviations) (ARef n_cddl) w []).
 Proof. exact language_small_scope. Qed.
 
